@@ -170,6 +170,12 @@ def gen_C01(rng, tier):
         u2 = []
         add_applies(rng, c, u2, rng.randint(1, 2))
         case['users'].append(u2)
+    if rng.random() < 0.2:
+        # message duplication: ACK / READY messages some worker already sent arrive a second time
+        if pc.get('timeout') is None and rng.random() < 0.7:
+            add_map(rng, c, ops, kind=rng.choice(['map', 'imap', 'imap_unordered']), n=rng.choice([2, 4, 6]),
+                    chunks=rng.choice([1, 2]), fail=rng.choice([0, 0, 0.3]))
+        case['users'].append([['dup', rng.randint(1, 4), rng.choice([0.001, 0.01, 0.1, 0.5])]])
     return case
 
 
@@ -397,6 +403,9 @@ def gen_C09(rng, tier):
         r = rng.random()
         if r < 0.5:
             def mk():
+                if rng.random() < 0.15:
+                    # every kind of outcome counts against the per-child quota
+                    return [['unpicklable']] if rng.random() < 0.6 else prog_raise(rng)
                 p = prog_ok(rng)
                 if pc.get('max_memory_per_child') and rng.random() < 0.4:
                     p.insert(0, ['rss', 9000])
@@ -412,6 +421,24 @@ def gen_C09(rng, tier):
             add_applies(rng, c, ops, 1, mk=lambda: prog_die(rng, sigs=[SIGKILL, SIGSEGV]))
         if rng.random() < 0.3:
             ops.append(['sleep', rng.choice([0.5, 1.0, 2.0])])
+    if rng.random() < 0.45:
+        # a caller that is descheduled in the middle of a resize (or of a submission): at its n-th system
+        # call ('nth'), between two lines of anything the pool method runs ('line'), or between two lines of
+        # the method's own body ('line' + 'body')
+        case['stalls'] = []
+        for _ in range(rng.randint(1, 2)):
+            op = rng.choice(['shrink', 'shrink', 'shrink', 'grow', 'apply'])
+            if not any(o[0] == op for o in ops):
+                ops.insert(rng.randint(0, len(ops)), ['shrink', 1] if op == 'shrink' else ['grow', 1])
+                op = 'shrink' if op == 'shrink' else 'grow'
+            mode = rng.choice(['nth', 'line', 'body', 'body'])
+            f = {'op': op, 'dur': rng.choice([0.3, 1.0, 2.5])}
+            if mode == 'body':
+                f['line'] = rng.randint(1, 12)
+                f['body'] = True
+            else:
+                f[mode] = rng.randint(1, 30)
+            case['stalls'].append(f)
     ops.append(['sleep', 2.0])
     ops.append(['check_size'])
     return case
@@ -529,6 +556,10 @@ def shrink(case):
     for i in range(len(case.get('ext_faults', []))):
         c = copy.deepcopy(case)
         del c['ext_faults'][i]
+        yield c
+    for i in range(len(case.get('stalls', []))):
+        c = copy.deepcopy(case)
+        del c['stalls'][i]
         yield c
     # shrink map items / simplify programs
     for ui, ops in enumerate(case['users']):
